@@ -103,6 +103,11 @@ pub fn edge_line() -> impl Strategy<Value = B> {
             Just(B(b"ACK [5@0] {} \xc3".to_vec())),
             Just(B(b"a: \xc3\xa4 ok utf8".to_vec())),
             Just(B(b"a: \xed\xa0\x80 surrogate".to_vec())),
+            // payload of the announced length not followed by LF
+            Just(B(b"binary: 2\nabX".to_vec())),
+            Just(B(b"binary: 0\nx".to_vec())),
+            Just(B(b"binary: 3\nab\n".to_vec())),
+            Just(B(b"binary: 1\n\n".to_vec())),
         ]
         .boxed(),
     )
